@@ -14,5 +14,7 @@ run_cmd do
       if let .thmInfo ti := ci then
         let s := n.getString!
         if s.startsWith "json_" || s.startsWith "typejson_" then
-          liftCoreM <| addDecl (.thmDecl { name := `CtyModel.C17j ++ Name.mkSimple s, levelParams := ti.levelParams,
-            type := ti.type, value := mkConst n (ti.levelParams.map mkLevelParam) })
+          let nm : Name := Name.str `CtyModel.C17j s
+          let val : Expr := mkConst n (ti.levelParams.map mkLevelParam)
+          let d : TheoremVal := { name := nm, levelParams := ti.levelParams, type := ti.type, value := val }
+          liftCoreM <| addDecl (Declaration.thmDecl d)
